@@ -10,6 +10,7 @@ package verifsim
 import (
 	"math/rand/v2"
 	"sort"
+	"time"
 )
 
 type Gen struct {
@@ -410,6 +411,12 @@ func newGen(s *Sim) *Gen {
 		case "C10", "C11", "C12":
 			g.w["cycle"] = 4
 		}
+	}
+	if s.cfg.Overtake {
+		// the periodic server kept inside one tick while registrations change and further
+		// ticks fall due: what it finds queued afterwards must be served in order
+		g.w["overtake"] = 5
+		g.perioOK = true
 	}
 	if s.cfg.faultOn("n4") {
 		g.w["n4err"] = 2
@@ -1224,6 +1231,41 @@ func (g *Gen) one() (Action, bool) {
 		}
 		g.pending = append(g.pending, func() (Action, bool) { return Action{Op: "adv", Ms: RT + int64(g.intn(20))}, true })
 		return g.krep()
+	case "overtake":
+		if s.heldReq != nil || s.holdPS || len(s.model.registered()) == 0 {
+			return Action{}, false
+		}
+		var maxP int64 = 1
+		for p := range s.model.registered() {
+			if v := int64(p / time.Second); v > maxP {
+				maxP = v
+			}
+		}
+		// the next tick's query is held ...
+		g.pending = append(g.pending, func() (Action, bool) { return Action{Op: "adv", Ms: maxP*1000 + int64(g.intn(300))}, true })
+		// ... registrations change meanwhile ...
+		for i, n := 0, 1+g.intn(3); i < n; i++ {
+			g.pending = append(g.pending, func() (Action, bool) {
+				switch g.intn(4) {
+				case 0:
+					if mm, sl, x := g.anyLive(); x != nil {
+						return Action{Op: "send", SMF: mm.Idx, Msg: &MsgIntent{T: "del", Seq: g.seq(mm), Slot: sl}}, true
+					}
+				case 1:
+					mm := s.smfs[g.intn(len(s.smfs))]
+					sl := g.intn(s.cfg.NSlots)
+					if g.liveOf(mm, sl) == nil {
+						return Action{Op: "send", SMF: mm.Idx, Msg: g.perioEst(mm, sl, 1+g.intn(3), 0)}, true
+					}
+				}
+				return g.modURR()
+			})
+		}
+		// ... and more ticks fall due before the answer comes
+		g.pending = append(g.pending,
+			func() (Action, bool) { return Action{Op: "adv", Ms: int64(pick(g.rng, 1, 2, 3))*1000 + int64(g.intn(300))}, true },
+			func() (Action, bool) { return Action{Op: "releaseps"}, true })
+		return Action{Op: "holdps"}, true
 	case "cycle":
 		// the same period group filled and emptied again and again
 		p := uint32(pick(g.rng, 1, 2, 3))
